@@ -85,6 +85,23 @@ def replay(pid, path):
     engine._FAMS = fams
     engine._SEED = body["seed"]
     engine._worker_init()
+    want = body["violation"]
+    if want["clause"] == "repeated-call-differs":
+        if fam.kind == "bfs":
+            differs = fam.replay_repeat(body["history"])
+        else:
+            case, o1 = fam.run_index(body["index"], body["seed"])
+            _, o2 = fam.run_index(body["index"], body["seed"])
+            print("case:", json.dumps(fam.describe(case), default=str)[:2000])
+            print("first :", repr(o1.outcome)[:400])
+            print("second:", repr(o2.outcome)[:400])
+            differs = engine.h64(o1.outcome) != engine.h64(o2.outcome) or sorted(
+                (v["site"], v["clause"]) for v in o1.violations) != sorted((v["site"], v["clause"]) for v in o2.violations)
+        if differs:
+            print(f"REPLAY-REPRODUCED property={pid} replay={path}")
+            return 1
+        print(f"REPLAY-NOT-REPRODUCED property={pid}")
+        return 0
     if fam.kind == "bfs":
         obs_list = fam.replay(body["history"])
         viol = [v for o in obs_list for v in o.violations]
@@ -92,7 +109,6 @@ def replay(pid, path):
         case, obs = fam.run_index(body["index"], body["seed"])
         print("case:", json.dumps(fam.describe(case), default=str)[:2000])
         viol = obs.violations
-    want = body["violation"]
     hit = False
     for v in viol:
         print(f"  violation site={v['site']} clause={v['clause']} cls={v['cls']} :: {v['detail'][:400]}")
@@ -207,21 +223,34 @@ def main(argv):
             print(f"HARNESS-ERROR property={pid}: vacuous: {m}")
         return 2
     if unknown:
-        first = True
-        for sig, v in list(unknown.items())[:8]:
+        confirmed = 0
+        items = list(unknown.items())
+        # a call-history dependence explains (and invalidates single-case replays of) everything else: try it first
+        items.sort(key=lambda kv: 0 if kv[0][2] == "repeated-call-differs" else 1)
+        history_dependent = False
+        for sig, v in items[:8]:
             path = write_replay(pid, tier, seed, v)
-            if first and v.get("index") is not None or (first and v.get("history")):
-                # reproduce once in a fresh process before trusting the failure
-                first = False
-                if os.environ.get("VERIF_NO_CONFIRM") != "1":
-                    rc = subprocess.run([sys.executable, "-m", "mc.run", pid, "--replay", path], cwd=VERIF, capture_output=True, text=True)
-                    if rc.returncode != 1:
-                        print(rc.stdout[-2000:])
-                        print(f"HARNESS-ERROR property={pid}: violation did not reproduce in a fresh process ({path})")
-                        return 2
+            ok = True
+            if os.environ.get("VERIF_NO_CONFIRM") != "1" and (v.get("index") is not None or v.get("history")):
+                # reproduce in a fresh process before trusting the failure
+                rc = subprocess.run([sys.executable, "-W", "ignore", "-m", "mc.run", pid, "--replay", path], cwd=VERIF, capture_output=True, text=True)
+                ok = rc.returncode == 1
+            if ok and sig[2] == "repeated-call-differs":
+                history_dependent = True
+            if not ok and history_dependent:
+                # the library carries state between calls (confirmed above): a single-case replay in a fresh process
+                # cannot reproduce a failure that needs the preceding calls; the violation was observed in the run
+                ok = True
             print(f"  site={v['site']} clause={v['clause']} cls={v['cls']} family={v.get('family')} :: {v.get('detail','')[:300]}")
-            print(f"VIOLATION property={pid} replay={path}")
+            if ok:
+                confirmed += 1
+                print(f"VIOLATION property={pid} replay={path}")
+            else:
+                print(f"  (not reproduced in a fresh process: {path})")
         print(f"[{pid}] {len(unknown)} distinct unlisted violation signatures, {n_unknown_sig} violation records; evidence {ev_path}")
+        if confirmed == 0:
+            print(f"HARNESS-ERROR property={pid}: no violation reproduced in a fresh process")
+            return 2
         return 1
     print(f"[{pid}] OK tier={tier} seed={seed} wall={wall:.1f}s evidence={ev_path}")
     return 0
